@@ -2,7 +2,7 @@
 From Coq Require Import Lia.
 From V.Model Require Import Base Templates Conv ConvErr.
 From V.Gen Require Import GenSrc.
-From V.Proofs Require Import TemplatesProofs ConvErrProofs ConvCfg.
+From V.Proofs Require Import TemplatesProofs ConvErrProofs ConvErrGlobal ConvCfg.
 
 (* The exception trees are those Model/Conv.v builds (EIterVal / EClassVal with the notes the hooks attach);
    [paths] is cattrs.transform_error.  No hypothesis on the payload anywhere: the statements hold for every
@@ -110,6 +110,24 @@ Proof.
 Qed.
 Print Assumptions C05_sequence_paths_any_depth.
 
+(* 6. The global statement.  [fpaths] (Proofs/ConvErrGlobal.v) is the specification of "the fault positions": it looks only at the
+      KIND of every sub-result (accepted / failed with a leaf exception / failed with a group), never inside an error tree, and
+      composes positions -- nothing for an accepted position (no path for a valid sibling), the position itself for a leaf
+      failure, [index] / .name + the child's fault positions below sequences, tuples, Optional / NewType / Annotated and classes
+      (dict payloads; attempted attributes in order, then the class position once for forbidden extra keys), the tuple's own
+      position for a wrong arity; below sets [index] + the element's fault positions, or [index] itself for a structured element
+      that cannot be hashed; below mappings [key] + the value's fault positions, else the key's, else [key] itself for a key that
+      cannot be hashed.  For EVERY environment, fuel, type and input, Converter with detailed validation under the dict
+      strategy, forbid_extra_keys on or off: whenever structure fails, transform_error reports exactly those positions, in that
+      order.  (Taken as reported, not re-derived: junk -- a non-dict -- at a class position, an un-iterable object at a collection
+      position, Any/Any mappings, and the case where only __init__ itself failed.) *)
+Theorem C05_paths_are_exactly_the_fault_positions :
+  forall (E : env) (forbid : bool) (n : nat) (t : ty) (o : val) (e : errkind),
+    structure E (mk_cfg true true false forbid) n t o = Err e ->
+    paths e [] = fpaths E (mk_cfg true true false forbid) n t o.
+Proof. intros E forbid. apply paths_are_fault_positions; reflexivity. Qed.
+Print Assumptions C05_paths_are_exactly_the_fault_positions.
+
 (* non-vacuity: a list of two instances under forbid_extra_keys, three independent faults at depth
    (a bad leaf in a nested list, a missing required key, an extra key): exactly three paths, none for
    the valid siblings *)
@@ -129,4 +147,12 @@ Example C05_nonvacuous :
   | Err e => paths e [] = [[SIdx 0; SField 1; SIdx 1]; [SIdx 1; SField 2]; [SIdx 1]]
   | _ => False
   end.
+Proof. vm_compute. reflexivity. Qed.
+
+(* the specification evaluated on the same input: the three fault positions, computed without looking at the error tree *)
+Example C05_fault_positions_example :
+  fpaths x_env (mk_cfg true true false true) 6 (TList (TClass 1))
+         (VList [VDict [(VAtom PStr 1, VList [VAtom PInt 5; VAtom PStr 6; VAtom PInt 7]); (VAtom PStr 2, VAtom PStr 8)];
+                 VDict [(VAtom PStr 1, VList []); (VAtom PStr 9, VAtom PInt 0)]])
+  = [[SIdx 0; SField 1; SIdx 1]; [SIdx 1; SField 2]; [SIdx 1]].
 Proof. vm_compute. reflexivity. Qed.
